@@ -132,5 +132,12 @@ func FamilyOddities() []*Conv {
 			n++
 		}
 	}
+	// enum transformer configurations with too few / too many words: a diagnostic, whatever the method converts
+	{
+		enums := "type PFXColA int\n\nconst (\n\tPFXColARed PFXColA = iota\n\tPFXColAGreen\n)\n\ntype PFXColB int\n\nconst (\n\tPFXColBRed PFXColB = iota\n\tPFXColBGreen\n)\n"
+		for _, cfg := range []string{"regex ^PFXColA", "regex", "regex a b c", "regex ( x", "nosuch a b", "regex PFXColA(\\w+) PFXColB$1 extra"} {
+			add("enum_transform_config_"+fmt.Sprint(n), "source PFXColA", "PFXColB", enums, []string{"enum:unknown @panic"}, []string{"enum:transform " + cfg})
+		}
+	}
 	return out
 }
